@@ -559,6 +559,19 @@ macro_rules! declare_storage_n {
                             entities[dense_index_usize].version(),
                             self.slots.slice(self.capacity())[slot_index_usize].version());
 
+                        // Advance the slot and storage versions up front. These can panic on overflow,
+                        // and must do so before we modify anything, or else a caught panic would leave
+                        // the storage in a partially destroyed (and unsafe to use or drop) state.
+                        // SAFETY: We know that the slot storage is valid up to our capacity, and
+                        // the caller guarantees that slot_index refers to a valid slot within it.
+                        let next_slot_version = self
+                            .slots
+                            .slice(self.capacity())
+                            .get_unchecked(slot_index_usize)
+                            .version()
+                            .next();
+                        let next_version = self.version.next();
+
                         #[cfg(feature = "events")]
                         {
                             self.destroyed.push(*entities.get_unchecked(dense_index_usize));
@@ -589,10 +602,10 @@ macro_rules! declare_storage_n {
                         // Return the target slot to the free list
                         slots
                             .get_unchecked_mut(slot_index_usize) // SAFETY: See declaration.
-                            .release(self.free_head);
+                            .release(self.free_head, next_slot_version);
 
                         // Advance this storage's overall version (for add/removes).
-                        self.version = self.version.next();
+                        self.version = next_version;
 
                         result
                     };
